@@ -1149,6 +1149,16 @@ class Ctx:
         self.yielded.append(v)
         return None
 
+    def ev_YieldFrom(self, n):
+        # ``yield from <iterable>``: the delegated iterable (a callee generator's result value, a sequence) is
+        # evaluated -- all effects of producing it happen here, as for ev_Yield generators under contract have none
+        # while iterating -- and recorded as ONE entry ("yield-from", value) of ``cx.yielded``
+        v = self.ev(n.value)
+        if not hasattr(self, "yielded"):
+            self.yielded = []
+        self.yielded.append(("yield-from", v))
+        return None
+
     def ev_Slice(self, n):
         return slice(self.ev(n.lower) if n.lower else None, self.ev(n.upper) if n.upper else None,
                      self.ev(n.step) if n.step else None)
@@ -1190,6 +1200,13 @@ class Ctx:
             raise
 
     def ev_ListComp(self, n):
+        # optional hook ``on_listcomp(cx, node)``: a contract may give a list comprehension its own (abstract list) value,
+        # e.g. a filter over a concrete tuple whose 2**len outcomes are irrelevant; contracts without the hook are unaffected
+        hook = getattr(self.contract, "on_listcomp", None)
+        if hook is not None:
+            r = hook(self, n)
+            if r is not NotImplemented:
+                return r
         try:
             return list(self.comprehension(n))
         except Unsupported:
@@ -1292,6 +1309,8 @@ class Ctx:
             return list(v.keys())
         if isinstance(v, range):
             return list(v)
+        if isinstance(v, str):
+            return list(v)  # a concrete python string iterates over its characters (``for s in "xyz"``)
         raise Unsupported(f"iteration over symbolic-length value at line {getattr(n, 'lineno', '?')}")
 
     # ---- calls
